@@ -73,9 +73,20 @@ def merge_absolute_range(ctx):
                  "rank's coordinate; the merge-range rule is not applied")
         return
     f = ctx.method("Fiber", "_mergeRanksHelper")
+    # the variable handed to the result's constructor as active_range=
+    arv = None
+    for r in pat.returns(f):
+        v = r.value
+        if isinstance(v, ast.Call):
+            a = pat.kwarg(v, "active_range", None)
+            if isinstance(a, ast.Name):
+                arv = a.id
+    ctx.require(arv, "C14.R5: _mergeRanksHelper no longer passes a variable as "
+                "active_range= of the fiber it returns")
+    stylep = f.params[2] if len(f.params) > 2 else "style"
     sets = [n for n in f.own_nodes() if isinstance(n, ast.Assign)
-            and text(n.targets[0]) == "active_range"
-            and pat.A("==", "style", "'absolute'") in pat.catoms_of_guards(ctx, f, n)]
+            and text(n.targets[0]) == arv
+            and pat.A("==", stylep, "'absolute'") in pat.catoms_of_guards(ctx, f, n)]
     ctx.require(sets, "C14.R5: _mergeRanksHelper no longer sets the active range for "
                 "style 'absolute'")
     # variables that accumulate the sub-fibers' active ranges
